@@ -9,12 +9,16 @@ Property theorems only.  The model (`Pyc/Model/Collateral.lean`) transliterates 
 sees), `r.ret` / `r.total` are `_collateral_return` / `_total_collateral`.  `coinSum` / `qtySum` are Σ over a list.
 `st.explicit = []` = the collateral is chosen automatically.
 
-Three statements of the property are FALSE of the code as it is; they are kept as `_goal`, with the proved
+Four statements of the property are FALSE of the code as it is; they are kept as `_goal`, with the proved
 `_partial` under an explicit extra hypothesis and a machine-checked `_counterexample`:
 * `collat_distinct` / `collat_total_distinct`: the three candidate lists are walked without a seen-set;
 * `collat_count`: `max_collateral_inputs` is never read;
 * `collat_percent`: `* percent // 100` floors where the ledger's `collateral * 100 ≥ fee * percent` needs the ceiling
-  (off by less than one lovelace, only when the fee equals `max_tx_fee`). -/
+  (off by less than one lovelace, only when the fee equals `max_tx_fee`).
+The fee of the transaction is not part of the model: the adequacy theorems quantify over every `fee ≤ max_tx_fee`.
+(`builder.fee_buffer` can push the fee of a built transaction above `max_tx_fee`: finding KF-C13-fee-buffer of the
+harness, outside this hypothesis.)  Collateral supplied by the caller (`st.explicit ≠ []`) is passed through
+unchecked; `collat_total`, `collat_covers`, `collat_percent`, `return_*` hold for it as well. -/
 
 namespace Pyc.C13
 open Pyc Pyc.Collateral
